@@ -51,6 +51,11 @@ CONSTANTS
   Fifo,              \* FALSE (code): every waiter polls on its own; whoever polls first after
                      \*   the bucket reached Min wins, a waiter can be bypassed for ever
                      \* TRUE (repair): waiters of one limiter are served first-come first-served
+  FastPath,          \* FALSE: a call made while somebody waits for tokens queues behind the waiters
+                     \* TRUE (a "fast path" in front of the queue): a call that finds tokens takes them at
+                     \*   once although another connection has been waiting for exactly those tokens; a
+                     \*   competitor whose calls arrive between "enough tokens accrued" and the waiter's
+                     \*   next poll overtakes it again and again
   SkipCancelled,     \* TRUE (asyncio.Lock): a waiter cancelled while queued leaves the queue, the turn
                      \*   goes to the next live waiter
                      \* FALSE (a hand-rolled queue that pops one future and wakes it only if it is not
@@ -209,7 +214,10 @@ Attempt(c, g) ==
                                      ELSE IF x \in others THEN MinOf(bypass[x] + 1, BypassBound + 1)
                                      ELSE bypass[x]]
        /\ last' = [ev |-> "grant", c |-> c, n |-> Min, g |-> g]
-       /\ HandOver(c, g)
+       /\ IF pc[c] = "idle" /\ others # {}
+            THEN \* (FastPath) c was never in the queue: the turn stays where it is
+                 UNCHANGED <<pc, rem, queue, stuck>>
+            ELSE HandOver(c, g)
   ELSE \* bucket empty: sleep INTERVAL and poll again
        /\ gens' = [gens EXCEPT ![g] = r]
        /\ pc' = [pc EXCEPT ![c] = "sleeping"]
@@ -229,6 +237,7 @@ Request(c) ==
             /\ last' = [ev |-> "grant", c |-> c, n |-> UMin, g |-> CurIdx]
             /\ UNCHANGED <<gens, pc, on, rem, queue, since, bypass, acct, stuck>>
        ELSE IF Fifo /\ (WaitersOn(CurIdx) # {} \/ CurIdx \in stuck)
+               /\ ~(FastPath /\ Refill(Cur).b >= Min)
             THEN /\ pc' = [pc EXCEPT ![c] = "queued"]
                  /\ on' = [on EXCEPT ![c] = CurIdx]
                  /\ queue' = Append(queue, c)
